@@ -25,6 +25,21 @@ CLAIMED = {
             "Does not decide that the reported solution satisfies the equations (needs the Newton solver and the compiled evaluator, see C15/C16), "
             "the curve_fit quality of >=3-point pump curves, the monotonicity of the head-pump smoothing cubic (checked at run time by WNTR) or "
             "the complete PRV/PSV status automaton. Trusts sympy normal forms and sa/symx.py.", "DESIGN.md §4 C02"),
+    "C07": ("formula extraction of the five-branch PDD constraint, of cubic_spline and of the spline-data builder into sympy terms; symbolic "
+            "identities (interpolation conditions) and breakpoint agreement as formulas in the exponent; override-rule path tables",
+            "Decides that the registered pressure-demand function is the documented one, C0/C1-continuous across all four breakpoints for ANY "
+            "exponent (spline identities + data = neighbours' value/derivative), with per-junction Pmin/Pnom/exponent overrides applied "
+            "consistently in the constraint and in the parameter builders and re-computed on change.",
+            "Does not decide the solver's result on the curve nor the monotonicity of the smoothing cubics between their end data. Trusts sympy.",
+            "DESIGN.md §4 C07"),
+    "C08": ("formula extraction of the three-branch leak constraint and its spline data; index-domain table (which element kinds each model "
+            "dictionary is built for vs. which each builder subscripts); construction facts of add_leak's controls; inverse-pair (effect set) "
+            "comparison of add_leak / remove_leak",
+            "Decides that the registered leak law is Cd*A*sqrt(2*9.81*p) above the 0.1 mm band, s*p below zero pressure, smoothly joined; that "
+            "the row exists only while leak_status is set; that no builder looks a tank up in a junction-only dictionary; that the start/end "
+            "controls are non-repeating pre-solve sim-time controls toggling the run-time switch; that remove_leak clears everything.",
+            "Leak term in the balance rows and tank demand is decided under C01. Timing itself is C04's mechanism. Not decided: solution values.",
+            "DESIGN.md §4 C08"),
     "C14": ("registry-invariant analysis over the AST: add_usage/remove_usage pairing tables, typed-subset add/discard set comparison, "
             "statement-order (must-precede) rules in __delitem__, view-accessor resolution",
             "Decides, for every mutating registry operation, that it preserves the invariant 'all views agree' (usage pairing per registry and tag, "
